@@ -108,6 +108,10 @@ func vObserve(name string, x float64) {
 	vObs = append(vObs, name+" "+strconv.FormatFloat(x, 'g', -1, 64))
 }
 
+func vObserveStr(name string, x string) {
+	vObs = append(vObs, name+" "+strconv.Quote(x))
+}
+
 func vObserveInt(name string, x int) {
 	vObs = append(vObs, name+" "+strconv.Itoa(x))
 }
